@@ -114,6 +114,18 @@ def cmd_detect(a):
             fi = [l.strip() for l in out.splitlines() if "failing input" in l or "correspondence broken" in l]
             res[c] = {"exit": rc, "violation_lines": viol[:3], "what": fi[:3], "wall_s": round(time.time() - t, 1),
                       "tier": a.tier, "seed": a.seed}
+            # keep the first failing input as a corpus entry (replayed first on every later run)
+            for v in viol[:1]:
+                rp = v.split("replay=")[1].split()[0]
+                try:
+                    r = json.load(open(rp))
+                    if r.get("kind") in ("failing-input", "broken-correspondence") and "input" in r:
+                        cd = os.path.join(VERIF, "corpus", c)
+                        os.makedirs(cd, exist_ok=True)
+                        json.dump({"clause": r["clause"], "input": r["input"], "from": "seeded/" + a.id},
+                                  open(os.path.join(cd, a.id + ".json"), "w"), indent=1)
+                except Exception as e:
+                    print("  (corpus entry not written:", e, ")")
             print(a.id, c, "exit", rc, viol[:1], fi[:1])
     m.setdefault("detection", {}).update(res)
     m["detected"] = any(r["exit"] == 1 for r in m["detection"].values())
@@ -123,11 +135,38 @@ def cmd_detect(a):
     return 0
 
 
+def cmd_table(a):
+    rows = []
+    for i in sorted(os.listdir(os.path.join(VERIF, "seeded"))):
+        try:
+            m = load_meta(i)
+        except Exception:
+            continue
+        det = m.get("detection", {})
+        caught = [c for c, r in det.items() if r["exit"] == 1]
+        how = []
+        for c in caught:
+            r = det[c]
+            nf = any("no-failing-input-found" in v for v in r["violation_lines"])
+            w = (r["what"][0] if r["what"] else "")
+            cl = w.split("[")[1].split(" ")[0] if "[" in w else "?"
+            how.append(f"{c}:{cl}" + (" (tie only)" if nf else ""))
+        ver = (m.get("verified") or {}).get("ok")
+        first = (m.get("needs") or "").strip().splitlines()
+        rows.append((i, m["property"], "yes" if ver else "NO", ", ".join(how) if how else ("MISSED" if det else "not run"),
+                     (m.get("summary") or (first[0] if first else ""))[:110]))
+    print("| seeded change | property | verified | caught by (check:clause) | what it is |")
+    print("|---|---|---|---|---|")
+    for r in rows:
+        print("| " + " | ".join(r) + " |")
+
+
 if __name__ == "__main__":
     ap = argparse.ArgumentParser()
     sub = ap.add_subparsers(dest="cmd")
     s = sub.add_parser("import"); s.add_argument("srcdir"); s.add_argument("id"); s.add_argument("property")
     s = sub.add_parser("verify"); s.add_argument("id")
     s = sub.add_parser("detect"); s.add_argument("id"); s.add_argument("--checks"); s.add_argument("--tier", default="quick"); s.add_argument("--seed", type=int, default=0)
+    s = sub.add_parser("table")
     a = ap.parse_args()
-    sys.exit({"import": cmd_import, "verify": cmd_verify, "detect": cmd_detect}[a.cmd](a) or 0)
+    sys.exit({"import": cmd_import, "verify": cmd_verify, "detect": cmd_detect, "table": cmd_table}[a.cmd](a) or 0)
